@@ -1,8 +1,9 @@
 (* C14 - the statements of the property, derived from the invariants *)
 From Coq Require Import List ZArith Bool Lia.
-From GV Require Import Model.Upgrade Proof.UpgradeInv Proof.UpgradePid.
+From GV Require Import Gen.GenUpgrade Model.Upgrade Proof.UpgradeInv Proof.UpgradePid.
 Import ListNotations.
 Local Open Scope Z_scope.
+Local Opaque reload_names_dot2.
 
 Definition some_alive (s : st) : Prop := m_alive (ma s) = true \/ m_alive (mb s) = true.
 
